@@ -257,7 +257,7 @@ fn request_of(verb: &str, rqn: usize, dir: &str, n: usize) -> (Request, Kind, bo
                 f.write_all(serde_json::to_string(&wr).unwrap().as_bytes()).unwrap();
                 f.write_all(b"\n\0").unwrap();
             }
-            (rt(RequestType::LoadState(path)), Kind::Load, false, n)
+            (rt(RequestType::LoadState(path)), Kind::Load, true, n)
         }
         "loadbad" => {
             // n valid records, then one that is cut in the middle (no terminator): the
@@ -760,6 +760,12 @@ impl World {
                         if n < r.nreq {
                             settled = false;
                         }
+                    }
+                    // a verb scattered without deadline, a worker that is alive but silent, and
+                    // more than the worker timeout gone by
+                    let waited = self.logical > r.sent_logical + 1000 * self.timeout_s;
+                    if !r.timed && !settled && waited && r.alive.iter().any(|&w| !self.workers[w].closed) {
+                        out.viol(&format!("no-deadline-{}", r.verb), &format!("request {i} ({}) is still unanswered after the worker timeout: it has no deadline and a worker that is alive has not answered", r.verb));
                     }
                     if expired {
                         out.viol("hang", &format!("request {i} ({}) has no final answer although the worker timeout passed", r.verb));
